@@ -504,3 +504,10 @@ def fold_phi(fo, t):
             return vals.pop()
         raise Unfoldable('phi')
     return fo.ev(t)
+
+
+def queue_modes_rule(F, R, M, rule, prefixes):
+    """H3 under another property's rule id, restricted to the drivers with the given path prefixes: each queue is constructed
+    with indirect / event-index / access-platform = contains(negotiated features, bit 28 / 29 / 33), in that order."""
+    qctor = [b['id'] for b in queue_entry_points(F, M) if b.get('sig', '').find('-> core::result::Result<%s<' % M.queue_adt) >= 0]
+    h1_constructors(F, RuleProxy(R, {'H3': rule}, only=lambda inst: any(inst.startswith(p_) for p_ in prefixes)), M, qctor)
